@@ -113,8 +113,8 @@ Proof.
   apply bind_ok in Hl. destruct Hl as [[w3 r] [Hs Hl]]. cbn [fst snd] in Hl.
   apply send_inv in Hs. destruct Hs as (He & Hr & Hne & Hm3).
   rewrite mstep_read in Hr, Hm3. rewrite Hm1 in Hr, Hm3.
-  destruct (dest_chip (w_m w) x y) as [[xy ch]|] eqn:Ed; [|subst r; congruence].
-  destruct (len >? m_buffer (w_m w)) eqn:Eg; [subst r; congruence|].
+  destruct (dest_chip (w_m w) x y) as [[xy ch]|] eqn:Ed; [|cbn [snd] in Hr; congruence].
+  destruct (len >? m_buffer (w_m w)) eqn:Eg; [cbn [snd] in Hr; congruence|].
   cbn [fst snd] in Hr, Hm3. subst r.
   destruct (zlen (mread (w_m w) (ch_cores ch) addr len) =? len) eqn:Ez; [|discriminate].
   rewrite Z.sub_diag, read_loop_done in Hl. inversion Hl; subst w2 d2. cbn [app].
